@@ -50,8 +50,10 @@ type ScriptConn struct {
 	closed    bool
 	remote    Addr
 
-	Writes    [][]byte
-	WriteGate func(b []byte) // called (outside the lock) before a write is recorded
+	Writes        [][]byte
+	WriteGate     func(b []byte) // called (outside the lock) before a write is recorded
+	writeDeadline time.Time
+	TornWrites    int // writes cut short by a write deadline
 	// BeforeRead is called at the entry of every Read: the moment the code under test asks the network for more
 	BeforeRead func()
 }
@@ -136,6 +138,15 @@ func (c *ScriptConn) Write(b []byte) (int, error) {
 	if c.closed {
 		return 0, errors.New("use of closed network connection")
 	}
+	// a write deadline is a property of the socket, not of one call: whoever is writing when it passes is cut
+	// short (part of the bytes are on the wire, the call fails). Nothing in hc arms one; a harness that
+	// makes writes slow (WriteGate) sees what happens if something does.
+	if !c.writeDeadline.IsZero() && time.Now().After(c.writeDeadline) {
+		k := len(b) / 3
+		c.Writes = append(c.Writes, append([]byte{}, b[:k]...))
+		c.TornWrites++
+		return k, ErrTimeout
+	}
 	c.Writes = append(c.Writes, append([]byte{}, b...))
 	return len(b), nil
 }
@@ -164,10 +175,15 @@ func (c *ScriptConn) IsClosed() bool {
 	return c.closed
 }
 
-func (c *ScriptConn) LocalAddr() net.Addr                { return Addr("127.0.0.1:5000") }
-func (c *ScriptConn) RemoteAddr() net.Addr               { return c.remote }
-func (c *ScriptConn) SetDeadline(t time.Time) error      { return nil }
-func (c *ScriptConn) SetReadDeadline(t time.Time) error  { return nil }
-func (c *ScriptConn) SetWriteDeadline(t time.Time) error { return nil }
+func (c *ScriptConn) LocalAddr() net.Addr               { return Addr("127.0.0.1:5000") }
+func (c *ScriptConn) RemoteAddr() net.Addr              { return c.remote }
+func (c *ScriptConn) SetDeadline(t time.Time) error     { return nil }
+func (c *ScriptConn) SetReadDeadline(t time.Time) error { return nil }
+func (c *ScriptConn) SetWriteDeadline(t time.Time) error {
+	c.mu.Lock()
+	c.writeDeadline = t
+	c.mu.Unlock()
+	return nil
+}
 
 var errEOF = io.EOF
